@@ -14,7 +14,7 @@ import tempfile
 VERIF = os.path.dirname(os.path.dirname(os.path.abspath(__file__)))
 
 MODES = {
-    'C01': ['bnd_doc', 'bnd_tables', 'c07_ol', 'c01_colspan', 'c01_specificity', 'c20_nth', 'c01_engine', 'c01_css', 'bnd_mut'],
+    'C01': ['bnd_doc', 'bnd_tables', 'c07_ol', 'c01_colspan', 'c01_specificity', 'c20_nth', 'c01_engine', 'c01_css', 'c01_colours', 'bnd_mut'],
     'C02': ['bnd_tables', 'bnd_doc', 'bnd_c07', 'bnd_c04', 'c02_elements', 'bnd_c12'],
     'C03': ['bnd_tables', 'bnd_doc', 'c03_elements'],
     'C04': ['bnd_c04'],
@@ -31,7 +31,7 @@ MODES = {
     'C16': ['bnd_doc', 'c16_prefix', 'c16_affix', 'c16_trivial', 'c07_compose', 'c16_compose', 'c16_roman'],
     'C18': ['bnd_c18'],
     'C19': ['c19', 'c19_inherit', 'c19_block', 'c19_order'],
-    'C20': ['bnd_c20', 'c20_nth'],
+    'C20': ['bnd_c20', 'c20_nth', 'c20_adoption'],
 }
 # enumerations written earlier as replay searchers (they stop at the first hit and print `NONE <cases>` otherwise); bound stated here
 LEGACY_BOUND = {
@@ -73,6 +73,8 @@ STANDS_FOR = {
     'c16_affix': 'affix placement by start_X/end_X through do_render_node', 'c16_trivial': 'TrivialDecorator through the whole pipeline',
     'c19': 'computed_style + merge_computed_style + maybe_update as a whole', 'c19_block': 'styles_from_properties + cascade inside one block / style attribute', 'c19_order': 'rule storage (do_add_css) and source order in computed_style', 'c19_inherit': 'colour push/pop around children in do_render_node',
     'c14_hardwrap': 'fragment marker through flush_word_hard_wrap',
+    'c01_colours': 'parse_color and the colour attribute handling (src/css/parser.rs, src/css.rs): hash, rgb() and named colour values with non-ASCII members and CSS escapes',
+    'c20_adoption': 'the tree builder of markup5ever_rcdom.rs (append / reparent_children / remove_from_parent keep parent links and child lists consistent — the assumption of unit SM about get_parent) together with do_matches, on documents the parser restructures',
     'bnd_doc': 'the whole pipeline on table-free documents (parse, process_dom_node, do_render_node and its closures, tree_map_reduce, render_tree_to_string): '
                'no panic, width bound, overflow option, and with the trivial decorator the document text preserved in order',
     'bnd_c07': 'do_render_node Ol/Ul arms with their closures, calc_ol_prefix_size, append_subrender as wholes: numbering, common marker width, indentation',
@@ -175,6 +177,7 @@ _HIT_RULES = [
     (r'^with link footnotes: line .* columns wide', {'C02'}),
     (r'^line .* is \d+ columns wide|^line .* wider than \d+', {'C02', 'C12', 'C07', 'C06'}),
     (r'^cell characters .* but output characters', {'C03', 'C06'}),
+    (r'^raw mode: cell characters', {'C03'}),
     (r'^lines of a side-by-side table differ|^first or last line is not a rule|but bar above=', {'C05', 'C06'}),
     (r'does not start with its prefix', {'C07', 'C16'}),
     (r'^trivial decorator: output characters', {'C03', 'C16'}),
